@@ -96,6 +96,9 @@ pub struct Features {
     /// (a cluster in the middle of a rolling upgrade).
     pub metadata_id_ext_except: Vec<NodeId>,
     pub lwt_ext: bool,
+    /// Statements (by shape) whose PREPARED answer carries the LWT mark on connections
+    /// that negotiated the extension.
+    pub lwt_marked_shapes: Vec<String>,
     pub rate_limit_ext: bool,
     pub compression: Vec<String>,
     pub auth: bool,
@@ -112,6 +115,7 @@ impl Default for Features {
             metadata_id_ext: false,
             metadata_id_ext_except: Vec::new(),
             lwt_ext: false,
+            lwt_marked_shapes: Vec::new(),
             rate_limit_ext: false,
             compression: vec!["lz4".into(), "snappy".into()],
             auth: false,
@@ -915,6 +919,7 @@ pub fn builtin(w: &mut World, script: &mut dyn Script, rq: &ReqInfo, req: &Reque
                 bind_cols: &bind_cols,
                 pk_indexes: &[],
                 result_cols: &cols,
+                lwt_mark: false,
             });
             w.respond(conn, stream, OP_RESULT, &body, &none, delay);
         }
@@ -951,6 +956,7 @@ pub fn builtin(w: &mut World, script: &mut dyn Script, rq: &ReqInfo, req: &Reque
                 bind_cols: &stmt.bind_cols,
                 pk_indexes: &stmt.pk_indexes,
                 result_cols: if hide_result_cols { &[] } else { &stmt.result_cols },
+                lwt_mark: w.conns[conn].cql.lwt_ext && w.cluster.features.lwt_marked_shapes.iter().any(|s| *s == stmt.shape),
             });
             let mut env = Envelope::default();
             if stmt.kind == StmtKind::Lwt && w.conns[conn].cql.lwt_ext {
